@@ -570,6 +570,8 @@ inductive Sup
   | AlignmentAffine | AlignmentSimilarity | AlignmentRotation | AlignmentTranslation
   | AlignmentUniformScale
   | TransformChain | WithDims | ThinPlateSplines | AbstractPWA | CachedPWA | PythonPWA
+  /-- supplies `n_dims` of the alignment classes (`self.target.n_dims`); used by `Core/C03Src.lean` only -/
+  | Targetable
 deriving DecidableEq, Repr
 
 /-- the methods of the composition machinery, in the column order of the method table -/
